@@ -115,6 +115,21 @@ func viewsEq(a, b []rv) bool {
 	return ok
 }
 
+// c06Install gives key a deadline. Under gosx through the real SetTTL (the timer goroutine it spawns is not
+// run: the schedule "timer has not fired yet" lasts up to a second in reality). Natively an already expired
+// deadline is written into the TTL table directly - the same reachable state (deadline reached, timer
+// goroutine not yet scheduled), without racing the real timer goroutine during the replay.
+func c06Install(m *MemDb, key string, deadline int64, expired bool) bool {
+	if vfIsSymbolic() || !expired {
+		return m.SetTTL(key, deadline) == 1
+	}
+	if _, ok := m.db.Get(key); !ok {
+		return false
+	}
+	m.ttlKeys.Set(key, &TTLInfo{value: deadline, cancel: make(chan struct{})})
+	return true
+}
+
 func c06Probe(lo, hi int) {
 	if hi > len(c06Cmds) {
 		hi = len(c06Cmds)
@@ -126,7 +141,7 @@ func c06Probe(lo, hi int) {
 	expired := delta <= 0
 	// m1: the key with a deadline; m2: the twin (no deadline / no key)
 	m1 := c06Build(c.typ, true)
-	vfAssert(m1.SetTTL("k", now+delta) == 1, "c06-deadline-installed")
+	vfAssert(c06Install(m1, "k", now+delta, expired), "c06-deadline-installed")
 	m2 := c06Build(c.typ, !expired)
 	var args [][]byte
 	for _, a := range c.args {
@@ -310,4 +325,70 @@ func VF_C06_checkttl() {
 		vfAssert(!alive && !ok && !has, "checkttl-at-deadline-removes")
 	}
 	vfAssert(vfLocksHeld() == 0, "checkttl-no-lock-left")
+}
+
+// ---------------------------------------------------------------------------
+// The probed key as the *second* key of a two-key command (destination of RENAME / SMOVE / LMOVE / *STORE,
+// later key of MSET / DEL / EXISTS): an expired destination counts as missing, and a live destination's
+// deadline is dropped when the value is replaced (RENAME, *STORE, MSET) and kept when it is only modified
+// (SMOVE, LMOVE).
+type c06DestCmd struct {
+	typ      byte
+	args     []string
+	replaced bool // the command replaces the value of k (its deadline must go)
+}
+
+var c06DestCmds = []c06DestCmd{
+	{'s', []string{"rename", "j", "k"}, true},
+	{'s', []string{"mset", "j", "1", "k", "2"}, true},
+	{'e', []string{"smove", "j", "k", "q"}, false},
+	{'l', []string{"lmove", "j", "k", "left", "right"}, false},
+	{'l', []string{"lmove", "j", "k", "right", "left"}, false},
+	{'e', []string{"sunionstore", "k", "j", "j"}, true},
+	{'e', []string{"sdiffstore", "k", "j", "nokey"}, true},
+	{'e', []string{"sinterstore", "k", "j", "j"}, true},
+	{'s', []string{"exists", "j", "k"}, false},
+	{'s', []string{"del", "j", "k"}, false},
+	{'s', []string{"mget", "j", "k"}, false},
+}
+
+func VF_C06_second_key() {
+	c := c06DestCmds[vfChoice("cmd", len(c06DestCmds))]
+	now := vfClockNow()
+	delta := vfInt64("delta")
+	vfAssume(delta >= -100000 && delta <= 100000)
+	expired := delta <= 0
+	m1 := c06Build(c.typ, true)
+	vfAssert(c06Install(m1, "k", now+delta, expired), "c06-deadline-installed")
+	m2 := c06Build(c.typ, !expired)
+	var args [][]byte
+	for _, a := range c.args {
+		args = append(args, bs(a))
+	}
+	r1 := hExec(m1, args...)
+	r2 := hExec(m2, args...)
+	name := c.args[0]
+	label := "live"
+	if expired {
+		label = "expired"
+	}
+	vfAssert(rvEq2(r1, r2), name+"-second-key-reply-"+label+"-equals-twin")
+	for _, k := range []string{"k", "j"} {
+		vfAssert(viewsEq(c06View(m1, k), c06View(m2, k)), name+"-second-key-keyspace-"+label+"-equals-twin")
+	}
+	_, there := hGet(m1, "k")
+	ttl, hasTTL := hHasTTL(m1, "k")
+	switch {
+	case !there:
+		vfAssert(!hasTTL, name+"-no-deadline-without-key")
+	case expired || c.replaced:
+		// a value written onto an expired or replaced key starts without a deadline (the source has none)
+		vfAssert(!hasTTL, name+"-new-value-inherited-the-old-deadline")
+	case name == "del":
+	default:
+		vfAssert(hasTTL && ttl == now+delta, name+"-deadline-of-modified-key-kept")
+	}
+	_, jHas := hHasTTL(m1, "j")
+	vfAssert(!jHas, name+"-deadline-moved-to-the-other-key")
+	vfAssert(vfLocksHeld() == 0, name+"-no-lock-left")
 }
